@@ -45,7 +45,8 @@ STYPES = [(r'^nano::solver_t$|^nano::solver_(gd|cgd|lbfgs|quasi)\w*_t$', 'struct
           (r'std::tuple_element<0, (const )?std::tuple<bool, double>>::type', '_Bool'),
           (r'std::tuple_element<1, (const )?std::tuple<bool, double>>::type', 'double')]
 SOLVER_ERASED = frame.ERASED + [r'^(nano::)?solver_state_t$', r'^std::deque<', r'^std::vector<', r'__alloc_traits<.*::value_type$']
-PURE = [(r'^(fabs|abs|sqrt|exp|log)\|', 'nv_pure1({0})'), (r'^(max|min|pow)\|', 'nv_pure2({0}, {1})'), (r'^clamp\|', 'nv_pure3({0}, {1}, {2})')]
+PURE = [(r'^(fabs|abs|sqrt|exp|log)\|.*#1$', 'nv_pure1({0})'), (r'^(max|min|pow)\|.*#2$', 'nv_pure2({0}, {1})'), (r'^clamp\|.*#3$', 'nv_pure3({0}, {1}, {2})'),
+        (r'^(max|min|lowest|epsilon|quiet_NaN|infinity)\|[^|]*\(\) noexcept', '@nondet')]
 SCALLS = [(r'^operator->\|', '{0}'), (r'^move\|', '{0}'), (r'^ctor\|nano::lsearch_t\|', 'nv_lsearch_make({&0}, {&1})')] + PURE
 SMEMBERS = [(r'^clone\|.*lsearch0_t', 'nv_ls0_clone'), (r'^clone\|.*lsearchk_t', 'nv_lsk_clone'),
             (r'^size\|nano::function_t', '{self}->m_size'), (r'^fcalls\|nano::function_t', '{self}->m_fcalls'),
@@ -306,6 +307,51 @@ def loss_targets():
     return ts
 
 
+# ------------------------------------------------------------------------------------------ ml::tune / ml::result_t
+TUNE_H = 'specs/C18/tune2.h'
+RTU = 'src/machine/result.cpp'
+TTU = 'src/machine/tune.cpp'
+TTYPES = [(r'^nano::ml::result_t$', 'struct nv_result'), (r'^std::vector<std::any', 'struct nv_cells'),
+          (r'^(nano::)?strings_t$|^std::vector<std::(__cxx11::)?basic_string', 'struct nv_cells'),
+          (r'^std::function<|(^|::)tune_callback_t$', 'struct nv_cb')]
+TUNE_ERASED = frame.ERASED + [r'^std::vector<std::pair<', r'^(nano::)?logger_t$', r'^(nano::)?tensor5d_t$',
+                                                                   r'^(nano::)?param_spaces_t$', r'^std::vector<nano::param_space_t', r'^(nano::ml::)?stats_t$',
+                                                                   r'^(nano::)?splitter_t::splits_t$', r'::value_type$']
+GRID = {'m_values': 'struct nv_grid'}
+
+
+def tune_targets():
+    lay = frame.Layout([dict(tu=RTU, cls='nano::ml::result_t', cname='struct nv_result', bases=CLONABLE, fields=GRID)], types=TTYPES, base_tu=RTU)
+
+    def pre():
+        text, info = lay.text()
+        return f'#include "{astload.VERIF}/specs/C18/tune.h"\n' + text, info
+
+    def common(**kw):
+        gh = frame.grid_cell_hook(set(GRID))
+        track = frame.make_track(rows_fields=tuple(GRID), effect_hooks=[gh])
+        d = dict(types=TTYPES, opaque=TUNE_ERASED, hooks=[gh, frame.uf_int_hook, track.expr_hook], stmt_hooks=[track.stmt_hook], uf_float=False,
+                 calls=[(r'^operator\[\]\|[^|]*const_reference[^|]*\|.*std::vector<std::any', '(*nv_cell_rd({&0}, {1}))'),
+                        (r'^operator\[\]\|[^|]*\|.*std::vector<std::any', '(*nv_cell_at({&0}, {1}))'),
+                        (r'^operator\[\]\|[^|]*const_reference[^|]*\|.*(strings_t|std::vector<std::(__cxx11::)?basic_string)', '(*nv_path_rd({&0}, {1}))'),
+                        (r'^operator\(\)\|.*\|(const )?(std::function<|nano::ml::tune_callback_t).*#6$', 'nv_user_callback({&0}, {1}, {2}, {3}, {4}, {5})'),
+                        (r'^make_file_logger\|', 'nv_make_logger({0})'), (r'^move\|', '{0}')] + PURE,
+                 members=[(r'^folds\|nano::ml::result_t', '{self}->m_values.folds'), (r'^trials\|nano::ml::result_t', '{self}->m_values.trials'),
+                          (r'^closest_trial\|nano::ml::result_t', 'nv_closest_trial({self}, {1})'),
+                          (r'^log_path\|nano::ml::result_t', 'result_log_path'), (r'^extra\|nano::ml::result_t\|#2', 'result_extra'),
+                          (r'^store\|nano::ml::result_t\|#5', 'result_store')])
+        d.update(kw)
+        return d
+    store = lambda: Fn('result_store', RTU, 'store', flt='nano::ml::result_t', select=nparams(5), self_struct='struct nv_result', **common())
+    extra = lambda: Fn('result_extra', RTU, 'extra', flt='nano::ml::result_t', select=nparams(2), self_struct='struct nv_result', **common())
+    lpath = lambda: Fn('result_log_path', RTU, 'log_path', flt='nano::ml::result_t', select=nparams(2), self_struct='struct nv_result', **common())
+    closest = Fn('result_closest_trial', RTU, 'closest_trial', flt='nano::ml::result_t', self_struct='struct nv_result', **common())
+    task = Fn('tune_task', TTU, 'tune', flt='nano::ml::tune', lambda_index=1, captures=True, **common())
+    return [T('result_store', [store()], TUNE_H, pre=pre), T('result_extra', [extra()], TUNE_H, pre=pre),
+            T('result_log_path', [lpath()], TUNE_H, pre=pre), T('result_closest_trial', [closest], TUNE_H, pre=pre),
+            T('tune_task', [task, store(), extra(), lpath()], TUNE_H, pre=pre)]
+
+
 def build(tier):
-    targets = solver_targets() + iterator_targets() + objective_targets() + loss_targets()
+    targets = solver_targets() + iterator_targets() + objective_targets() + loss_targets() + tune_targets()
     return {'targets': targets, 'vcs': [], 'decided': [], 'not_decided': [], 'assumptions': [], 'trusted': []}
